@@ -132,11 +132,17 @@ structure State where
   asocks : Addr → Sock
   adm : Option (Gen × Addr)          -- localAdminServer: the load that started it, its address
   admRetired : List (Gen × Addr)     -- replaced admin servers whose Shutdown has not closed the listener yet
+  -- request contexts. A request's context descends from the http.Server's base context
+  -- (context.Background: `(*App).start` sets no BaseContext; ConnContext only adds a value), NOT from
+  -- the context of the config that owns the server, which unsyncedStop cancels right after the apps'
+  -- Stop — while requests may still be in flight (Stop does not wait for them on a reload).
+  cancelled : List Gen               -- configs whose context has been cancelled (cfg.cancelFunc)
+  ctxLost : List (Nat × Gen)         -- in-flight requests whose own context was cancelled under them
 
 def init : State :=
   { socks := fun _ => Sock.empty, cur := none, next := none, retiring := none, zombies := [],
     phase := .idle, fresh := 0, inflight := [], done := [],
-    asocks := fun _ => Sock.empty, adm := none, admRetired := [] }
+    asocks := fun _ => Sock.empty, adm := none, admRetired := [], cancelled := [], ctxLost := [] }
 
 def setSock (f : Addr → Sock) (a : Addr) (k : Sock) : Addr → Sock :=
   fun b => if b = a then k else f b
@@ -177,6 +183,7 @@ inductive Step where
   | complete (t : Nat) (g : Gen)
   | adminReplace (g : Gen) (a : Option Addr)  -- provisionContext: start the new admin listener (none: disabled), then retire the old server
   | adminClose (g : Gen) (a : Addr)           -- stopAdminServer (asynchronous): Shutdown closes the replaced server's listener
+  | cancelCtx (g : Gen)                        -- unsyncedStop: cfg.cancelFunc() of the config that was just stopped (before its Cleanups)
 deriving DecidableEq, Repr
 
 def isRetiring (s : State) (g : Gen) : Bool := genOf s.retiring == some g
@@ -191,6 +198,13 @@ def admGenOk (s : State) (g : Gen) : Bool :=
   (match s.adm with
    | some (g0, _) => decide (g0 < g)
    | none => true) && s.admRetired.all (fun p => decide (p.1 < g))
+
+/-- what cancelling the context of config `g` does to the requests in flight: nothing, as the code is
+    (`fromConfig = false`); had request contexts been derived from the config's context
+    (`fromConfig = true`, e.g. a `BaseContext` returning the server's `ctx`), every request the config
+    accepted and has not answered yet would lose its context at once -/
+def lostByCancel (fromConfig : Bool) (s : State) (g : Gen) : List (Nat × Gen) :=
+  if fromConfig then s.inflight.filter (fun p => p.2 == g) else []
 
 def enabled (s : State) : Step → Bool
   | .begin c => s.phase = .idle && s.drained && decide (s.fresh ≤ c.gen) && decide c.addrs.Nodup
@@ -221,6 +235,7 @@ def enabled (s : State) : Step → Bool
        | some a => !(s.asocks a).holds g
        | none => true)
   | .adminClose g a => s.admRetired.contains (g, a)
+  | .cancelCtx g => s.phase = .stopping && isRetiring s g && !s.cancelled.contains g
 
 def admAfter (g : Gen) : Option Addr → Option (Gen × Addr)
   | some a => some (g, a)
@@ -253,6 +268,7 @@ def eff (s : State) : Step → State
     { s with asocks := asocksAfter s g a, adm := admAfter g a, admRetired := s.adm.toList ++ s.admRetired }
   | .adminClose g a =>
     { s with asocks := setSock s.asocks a (closeSock a (s.asocks a) g), admRetired := s.admRetired.erase (g, a) }
+  | .cancelCtx g => { s with cancelled := g :: s.cancelled, ctxLost := lostByCancel false s g ++ s.ctxLost }
 
 def step? (s : State) (st : Step) : Option State :=
   if enabled s st then some (eff s st) else none
